@@ -156,17 +156,27 @@ def same_region(body, src, order):
 def fill(dt, n, rng):
     """n elements of dtype dt with reproducible contents"""
     if dt.hasobject:
-        vals = [rng.choice([None, 1, "s", (1, 2), 2.5, b"b", [1]]) for _ in range(n)]
+        pool = [None, 1, "s", (1, 2), 2.5, b"b", [1]]
         a = np.empty(n, dtype=dt)
         if dt.names:
             for nm in dt.names:
-                if dt[nm].hasobject:
-                    a[nm] = np.array(vals + [None], dtype=object)[:-1]
+                fdt = dt[nm]
+                if fdt.names:                                  # nested struct (with or without object fields)
+                    a[nm] = fill(fdt, n, rng)
+                elif fdt.subdtype is not None:                 # sub-array field
+                    base, shp = fdt.subdtype
+                    cnt = int(np.prod(shp))
+                    a[nm] = fill(base, n * cnt, rng).reshape((n,) + shp)
+                elif fdt.hasobject:
+                    col = np.empty(n, dtype=object)
+                    for i in range(n):
+                        col[i] = rng.choice(pool)
+                    a[nm] = col
                 else:
-                    a[nm] = fill(dt[nm], n, rng) if dt[nm].shape == () else 0
+                    a[nm] = fill(fdt, n, rng)
         else:
-            for i, v in enumerate(vals):
-                a[i] = v
+            for i in range(n):
+                a[i] = rng.choice(pool)
         return a
     if dt.kind == "U":
         k = max(dt.itemsize // 4, 1)
@@ -240,7 +250,7 @@ def mk_form(f):
 def digest(a):
     a = np.asarray(a)
     if a.dtype.hasobject:
-        return hashlib.md5(pickle.dumps(a.tolist(), protocol=2)).hexdigest()
+        return hashlib.md5(repr(a.tolist()).encode("utf-8", "backslashreplace")).hexdigest()
     return hashlib.md5(canon_bytes(np.ascontiguousarray(a))).hexdigest()
 
 
@@ -255,11 +265,17 @@ def compare(a, back, strict_dtype):
         return "type %s -> %s" % (type(a).__name__, type(back).__name__)
     if back.shape != a.shape:
         return "shape %s -> %s" % (a.shape, back.shape)
-    if strict_dtype or a.dtype == native(a.dtype):
+    if a.dtype.hasobject:
+        # pickled by numpy: the byte order of non-object fields is normalised; elements are compared by value
+        if native(back.dtype) != native(a.dtype):
+            return "dtype %s -> %s" % (a.dtype, back.dtype)
+        if repr(a.tolist()) != repr(back.tolist()):
+            return "object elements differ"
+    elif strict_dtype or a.dtype == native(a.dtype):
         if back.dtype != a.dtype:
             return "dtype %s -> %s" % (a.dtype, back.dtype)
         if a.dtype.hasobject:
-            if a.tolist() != back.tolist():
+            if repr(a.tolist()) != repr(back.tolist()):          # repr: nan == nan, no identity effects
                 return "object elements differ"
         elif canon_bytes(a) != canon_bytes(back):
             return "element bytes differ"
@@ -490,8 +506,12 @@ def run_loky(c):
             else:
                 arrays.append(build(spec, rng, wd))
         want = [{"digest": digest(x), "dtype": str(x.dtype), "shape": list(x.shape), "nbytes": int(x.nbytes)} for x in arrays]
-        got = Parallel(n_jobs=2, max_nbytes=c["max_nbytes"], backend="loky")(delayed(_task)(x) for x in arrays)
-        return {"want": want, "got": got}
+        seq = [_task(x) for x in arrays]
+        try:
+            got = Parallel(n_jobs=2, max_nbytes=c["max_nbytes"], backend="loky", timeout=120)(delayed(_task)(x) for x in arrays)
+        except Exception as e:  # noqa
+            return {"want": want, "parallel_raise": "%s: %s" % (type(e).__name__, str(e)[:160])}
+        return {"want": want, "got": got, "seq": seq}
     finally:
         shutil.rmtree(wd, ignore_errors=True)
 
@@ -598,9 +618,18 @@ def run_route(c):
         names = {"_strided_from_memmap": "reduce_backed", "load_temporary_memmap": "dump_temp", "loads": "pickle"}
         out = {"nbytes": int(a.nbytes), "hasobject": bool(a.dtype.hasobject),
                "has_backing": mr._get_backing_memmap(a) is not None}
-        f = red(a)
+        out["dtype_kind"] = ord(a.dtype.kind)
+        try:
+            f = red(a)
+        except Exception as e:  # noqa
+            out["forward_raise"] = "reducing: %s: %s" % (type(e).__name__, str(e)[:120])
+            return out
         out["forward"] = names.get(getattr(f[0], "__name__", "?"), getattr(f[0], "__name__", "?"))
-        back = f[0](*f[1])
+        try:
+            back = f[0](*f[1])           # what the worker does with the reduction
+        except Exception as e:  # noqa
+            out["forward_raise"] = "rebuilding in the worker's way (%s): %s: %s" % (out["forward"], type(e).__name__, str(e)[:120])
+            return out
         # a pickled array is normalised to the native byte order by numpy itself: values are compared
         out["forward_ok"] = compare(a, back, out["forward"] != "pickle") is None
         out["forward_memmap"] = mr._get_backing_memmap(back) is not None
